@@ -50,7 +50,7 @@ def proj_strategy(stratum, tier):
         dict(
             D=st.just(D),
             N=st.just(N),
-            L=gens.st_L(0.3, 30.0),
+            L=st.one_of(gens.st_L(0.3, 30.0), gens.log_floats(1e-3, 1e6)),
             state=gens.st_white(0.2, 3.0, kind="nyqfree"),
             mean=st.lists(gens.coef(-1, 1), min_size=D, max_size=D),
             potential=gens.st_trig(nA, D, kmax, 1, 4),
@@ -125,7 +125,7 @@ def conv_strata(tier):
 
 
 def conv_strategy(stratum, tier):
-    return st.fixed_dictionaries(dict(N=st.just(stratum["N"]), L=gens.st_L(0.3, 30.0), state=gens.st_white(0.2, 3.0), frac=st.sampled_from(["2/3", "1/2"])))
+    return st.fixed_dictionaries(dict(N=st.just(stratum["N"]), L=st.one_of(gens.st_L(0.3, 30.0), gens.log_floats(1e-3, 1e6)), state=gens.st_white(0.2, 3.0), frac=st.sampled_from(["2/3", "1/2"])))
 
 
 def conv_check(case):
@@ -163,7 +163,7 @@ def roll_strategy(stratum, tier):
     return st.fixed_dictionaries(
         dict(
             fam=st.just(f),
-            spec=configs.st_spec(f, 3, N, orders=(1, 2, 3, 4), dt=gens.log_floats(1e-3, 0.3), contour=True, frac_choice=True),
+            spec=configs.st_spec(f, 3, N, orders=(1, 2, 3, 4), dt=gens.log_floats(1e-3, 0.3), L=st.one_of(gens.st_L(0.3, 30.0), gens.log_floats(1e-2, 1e6)), contour=True, frac_choice=True),
             state=gens.st_white(0.1, 1.0),
             n=st.integers(1, 20),
         )
